@@ -50,7 +50,13 @@ def gen_params(rng: random.Random, idx, tier="quick", force=None):
         "end_at_frac": rng.choice([None, None, 0.3, 0.6, 0.9]),   # issue flush()/stop() while tasks still send
         "value_pad": rng.choice([0, 10, 50, 120]),
         "pure_python_codec": False,
+        # a partition leader is down (the metadata names no leader for its partitions) for a while: shorter or LONGER than
+        # the request timeout, which is also how long a batch may wait for a leader before it is given up
+        "leader_outage": None,
     }
+    if rng.random() < 0.25:
+        p["leader_outage"] = {"at": round(rng.uniform(0.05, 3.0), 3),
+                              "for": round(rng.choice([0.4, 1.0, p["request_timeout_ms"] / 1000.0 + rng.choice([0.5, 2.0])]), 3)}
     if idem:
         r = rng.random()
         if r < 0.25:
@@ -122,6 +128,15 @@ def run_history(P):
                         loop.call_later(rng.uniform(0.1, 2.0), setattr, b, "stale_md", None)
                     cl.move_leader(topic, p)
 
+            if P.get("leader_outage"):
+                lo = P["leader_outage"]
+
+                def outage():
+                    b = cl.brokers[cl.leaders[(topic, rng.randrange(P["n_parts"]))]]
+                    b.go_down()
+                    H["notes"].append({"leader_outage": b.node_id, "t": round(loop.time() - t0, 6), "for": lo["for"]})
+                    loop.call_later(lo["for"], b.come_up)
+                loop.call_later(lo["at"], outage)
             mis = asyncio.ensure_future(mischief())
             total = P["n_records"]
             per_task = [total // P["n_tasks"] + (1 if i < total % P["n_tasks"] else 0) for i in range(P["n_tasks"])]
@@ -253,12 +268,20 @@ def run_history(P):
         for r in tap.records:
             if r["req"] == "ProduceRequest":
                 tps = []
+                seqs = {}
                 for t, parts in r["request"]._topics:
                     for part in parts:
                         tps.append(part[0])
+                        try:      # v2 batch header as the client put it on the wire: baseSequence @53, record count @57
+                            buf = bytes(part[1])
+                            if len(buf) >= 61 and buf[16] == 2:
+                                seqs[str(part[0])] = [int.from_bytes(buf[53:57], "big", signed=True),
+                                                      int.from_bytes(buf[57:61], "big", signed=True)]
+                        except Exception:  # noqa: BLE001
+                            pass
                 H["inflight"].append({"node": r["node"], "t_call": r["t_call"] - t0,
                                       "t_ret": (r["t_ret"] - t0) if r["t_ret"] is not None else None,
-                                      "outcome": r["outcome"], "tps": tps})
+                                      "outcome": r["outcome"], "tps": tps, "seqs": seqs})
 
     try:
         run_sim(main, seed=P["seed"], net=net, max_virtual_s=3600, max_events=400000)
@@ -292,3 +315,42 @@ def run_history(P):
 def produce_bound(P):
     """B_produce (DESIGN Appendix B), virtual seconds."""
     return 4 * (P["request_timeout_ms"] + P["metadata_max_age_ms"]) / 1000.0 + 40 * P["retry_backoff_ms"] / 1000.0
+
+
+LEADERLESS_EXPIRY_ERRORS = ("LeaderNotAvailableError", "NotLeaderForPartitionError")
+
+
+def sent_batch_expired_without_leader(H, partition, missing_seq, before_t):
+    """Classifier for the known finding "a batch of an idempotent producer that had already been sent (it carries
+    sequence numbers) is given up after waiting longer than its ttl for a partition leader": True iff
+      (1) the client itself put a batch with base sequence `missing_seq` for this partition on the wire (client-boundary
+          tap) before `before_t`, and
+      (2) before `before_t` a record future of this partition failed with the error the accumulator's leaderless expiry
+          raises (LeaderNotAvailableError / NotLeaderForPartitionError; for an idempotent producer the sender never
+          fails a batch with a retriable error, so nothing else raises them).
+    A sequence that was handed to a batch which never left the client does not qualify (that was defect c9f2f2c)."""
+    sent = any(iv["t_call"] <= before_t + 1e-9 and (iv.get("seqs") or {}).get(str(partition), [None])[0] == missing_seq
+               for iv in H["inflight"])
+    if not sent:
+        return False
+    return any(f.get("tp") == partition and f.get("outcome") == "exception" and f.get("exc") in LEADERLESS_EXPIRY_ERRORS
+               and f.get("t_done") is not None and f["t_done"] <= before_t + 1e-9 for f in H["futures"].values())
+
+
+def first_sequence_gap(H):
+    """partition -> (expected, arrived, t) of the first sequence gap the brokers saw (idempotent producers)."""
+    P = H["params"]
+    out, seen = {}, {}
+    for a in H["arrivals"]:
+        bs = a.get("batches") or []
+        if not bs or a["partition"] in out:
+            continue
+        b = bs[0]
+        prev = seen.setdefault(a["partition"], [])
+        if any(x[0] == b["base_seq"] for x in prev):
+            continue
+        exp = (prev[-1][0] + prev[-1][1]) % 2**31 if prev else (P["start_seq"] if P["start_seq"] is not None else 0)
+        if b["base_seq"] != exp:
+            out[a["partition"]] = (exp, b["base_seq"], a["t"])
+        prev.append((b["base_seq"], b["count"]))
+    return out
